@@ -88,7 +88,8 @@ KINDS = [['ok', 'prims'], ['ok', 'echo'], ['ok', 'inners'], ['ok', 'multi'],
          ['ok', 'noargs'], ['ok', 'sub'], ['ok', 'strict'], ['gen', 2],
          ['failcall'], ['unknown'], ['invalid'], ['wsdl'], ['ok', 'pa'],
          ['ok', 'poly'], ['malformed', 'truncate'], ['ok', 'item1'],
-         ['ok', 'item2'], ['twins'], ['wsdl', 'badhost']]
+         ['ok', 'item2'], ['twins'], ['wsdl', 'badhost'],
+         ['multiref', 'echo'], ['multiref', 'item1']]
 
 
 def _request_mix(rng, theme):
@@ -165,6 +166,9 @@ def gen_cases(tier, verif_seed):
             # workload execute (resolved by a calibration run in run_case)
             region = ['auto', sr.getrandbits(16)] if sr.random() < .85 \
                                                                   else None
+            if region is not None and k % 4 == 3:
+                # every shared region at once, with a lower switch rate
+                region = ['auto-all', 0]
             yield {
                 'seed': seed, 'useed': gseed & 0xffffffff,
                 'in_prot': pair[0], 'out_prot': pair[1], 'validator': val,
@@ -298,8 +302,10 @@ def _concurrent(case, schedule=None):
     if schedule is not None:
         p = {'replay': schedule['replay'], 'forced': schedule['forced'],
              'opcodes': schedule.get('opcodes', False),
-             'region': set([tuple(schedule['region'])])
-             if schedule.get('region') else set()}
+             'region': set(tuple(x) for x in schedule['regions'])
+             if schedule.get('regions') else (
+             set([tuple(schedule['region'])])
+             if schedule.get('region') else set())}
     else:
         rng = Streams(plan['sseed'])['schedule']
         est = 2500 * sum(len(r) for r in reqs)
@@ -307,11 +313,20 @@ def _concurrent(case, schedule=None):
         if pct is None:
             pct = sorted(rng.randint(1, est) for _ in range(plan['pct_n']))
         region = plan['region']
-        if region and region[0] == 'auto':
-            region = _resolve_region(case, region[1])
-        p = {'rng': rng, 'pct': pct,
-             'region': set([tuple(region)]) if region else set(),
-             'p': plan['p'], 'opcodes': bool(plan.get('opcodes'))}
+        pp = plan['p']
+        if region and region[0] == 'auto-all':
+            _resolve_region(case, 0)
+            key = digest([case['useed'], case['in_prot'], case['out_prot'],
+                          case['validator'], case.get('poly'),
+                          case['callers'], case['aseeds']])
+            regions_ = set(tuple(x) for x in _SHARED_CACHE[key][0])
+            pp = pp * 0.2
+        else:
+            if region and region[0] == 'auto':
+                region = _resolve_region(case, region[1])
+            regions_ = set([tuple(region)]) if region else set()
+        p = {'rng': rng, 'pct': pct, 'region': regions_, 'p': pp,
+             'opcodes': bool(plan.get('opcodes')) and len(regions_) == 1}
     s = sched.Scheduler(len(reqs), p)
     clock = SimClock()
     old_time = spyne.context.time
@@ -444,7 +459,8 @@ def run_case(case):
                      'forced': list(s.forced_log),
                      'opcodes': s.opcodes,
                      'region': list(sorted(s.region)[0]) if s.region
-                     else None},
+                     else None,
+                     'regions': [list(x) for x in sorted(s.region)]},
         'region_switches': dict(s.region_hits),
         'extra_probes': region_probes,
         'region': sorted(s.region)[0] if s.region else None,
